@@ -846,6 +846,11 @@ func (c *fnCtx) finish() {
 		for j := 0; j < res.Len(); j++ {
 			v := c.freshVal(c.entry.clone(), res.At(j).Type(), "replayres")
 			rs = append(rs, v)
+			if fullTypeKey(res.At(j).Type()) == "go.starlark.net/starlark.Int" && c.specFnDeclared["spec!val"] {
+				// an Int result is observed through its mathematical value
+				consts = append(consts, [2]string{app("spec!val", flatten(v)[0].S), "intval"})
+				continue
+			}
 			for _, f := range flatten(v) {
 				consts = append(consts, [2]string{f.S, fmt.Sprint(int(f.K))})
 			}
